@@ -1,4 +1,187 @@
-import GeomV.C02.Model
-import GeomV.C02.Spec
+import GeomV.C02.LemmasPoly
+/-!
+# C02 — property theorems (model of within.go, simplify.go: pointOnSegment, area.go: ringBounds and the
+vertex-wise Within receivers, after the three `fix:` commits; see notes/C02.md)
+
+All statements are over ALL rational points and ALL polygonal geometries: self-intersecting,
+degenerate, unclosed, either winding, any number of rings and member polygons, `*Bounds` — there is no
+validity hypothesis and no size bound.
+
+* `C02_pointOnSegment_spec`   `pointOnSegment` = closed box ∧ cross product 0, except at the start point of
+                              a non-vertical segment (`0/0 = NaN` compares unequal).
+* `C02_rayIntersects_eq_crossHO`  off the segment, `rayIntersectsSegment` = the half-open crossing rule.
+* `C02_ring_onEdge_iff`       a ring (≥ 3 vertices) reports `OnEdge` iff the point is on one of its boundary
+                              segments, closing segment of an unclosed ring and all vertices included.
+* `C02_closed_walk_even`, `C02_bbox_prefilter_sound`  the per-ring box prefilter is sound.
+* `C02_point`                 `Point.Within` = `withinSpec` (OnEdge clause and even-odd clause of the property).
+* `C02_point_no_panic`        `pgBounds[i]` never faults.
+* `C02_receivers_points`, `C02_receivers_multiline`, `C02_receivers_polygon`   receivers clause.
+-/
+set_option linter.unusedSimpArgs false
 namespace GeomV.C02
+open GeomV
+
+/-- reading a specification verdict as a `WithinStatus` -/
+def ofVerdict : Spec.Verdict → Status
+  | .outside => .outside
+  | .inside => .inside
+  | .onEdge => .onEdge
+
+theorem ofVerdict_outside (v : Spec.Verdict) : ofVerdict v = .outside ↔ v = .outside := by
+  cases v <;> simp [ofVerdict]
+
+/-- [mechanism: exact on-segment test] `pointOnSegment(p, l1, l2)` holds exactly when `p` is in the
+closed box of the segment and collinear with it — except when `p` is the start point `l1` of a
+non-vertical segment, where `d1.Y/d1.X = 0/0 = NaN` makes the slope comparison false. -/
+theorem C02_pointOnSegment_spec (p l1 l2 : P) :
+    pointOnSegment p l1 l2 = true ↔ (Spec.onSeg p (l1, l2) = true ∧ ¬ (p = l1 ∧ l1.x ≠ l2.x)) :=
+  pointOnSegment_spec p l1 l2
+
+/-- [mechanism: ray casting] for a point not on the segment, `rayIntersectsSegment` is the half-open
+crossing rule (lower end counted, upper end not, point strictly left of the segment at its height). -/
+theorem C02_rayIntersects_eq_crossHO (p a b : P) (hn : Spec.onSeg p (a, b) = false) :
+    rayIntersectsSegment p a b = Spec.crossHO p (a, b) :=
+  rayIntersects_eq_crossHO p a b hn
+
+/-- [OnEdge clause, per ring] the ring loop body returns `OnEdge` exactly when the point lies on a
+boundary segment of the ring — including every vertex (each is the END of some segment, which is
+what rescues the NaN case) and the implicit closing segment of an unclosed ring. -/
+theorem C02_ring_onEdge_iff (pt : P) (ring : Ring) (inn : Status) (h3 : 3 ≤ ring.length)
+    (hin : inn = .outside ∨ inn = .inside) :
+    ringBody pt ring inn = .ret .onEdge ↔ ∃ s ∈ Spec.segments ring, Spec.onSeg pt s = true := by
+  have hb : ∃ b, inn = ofBool b := by
+    rcases hin with h | h
+    · exact ⟨false, h⟩
+    · exact ⟨true, h⟩
+  obtain ⟨b, rfl⟩ := hb
+  rw [ringBody_spec pt ring b h3, ← List.any_eq_true]
+  by_cases h : (Spec.segments ring).any (Spec.onSeg pt) = true
+  · simp [h]
+  · simp [h]
+
+/-- [mechanism: box prefilter] the boundary segments of any ring switch sides of any predicate an even
+number of times (a closed walk returns to its start). -/
+theorem C02_closed_walk_even (f : P → Bool) (ring : Ring) :
+    ((Spec.segments ring).countP (fun s => f s.1 != f s.2)) % 2 = 0 := by
+  have := closed_walk_even f ring
+  unfold parity at this
+  have h2 := Nat.mod_two_eq_zero_or_one ((Spec.segments ring).countP (fun s => f s.1 != f s.2))
+  rcases h2 with h | h
+  · exact h
+  · simp [h] at this
+
+/-- [mechanism: box prefilter] a ring whose `ringBounds` box does not overlap the point has no boundary
+segment through the point and an even number of crossings, so skipping it changes nothing. -/
+theorem C02_bbox_prefilter_sound (p : P) (ring : Ring)
+    (h : (newBounds.extendPoints ring).overlaps (newBoundsPoint p) = false) :
+    (∀ s ∈ Spec.segments ring, Spec.onSeg p s = false) ∧
+    ((Spec.segments ring).countP (Spec.crossHO p)) % 2 = 0 := by
+  obtain ⟨h1, h2⟩ := bbox_prefilter_sound p ring h
+  refine ⟨fun s hs => by simpa using List.any_eq_false.mp h1 s hs, ?_⟩
+  unfold parity at h2
+  rcases Nat.mod_two_eq_zero_or_one ((Spec.segments ring).countP (Spec.crossHO p)) with h | h
+  · exact h
+  · simp [h] at h2
+
+theorem polysVerdict_eq (pt : P) (polys : List Poly) :
+    polysVerdict pt polys false = ofVerdict (Spec.withinSpec pt polys) := by
+  unfold polysVerdict Spec.withinSpec
+  simp only [Bool.false_xor]
+  by_cases ha : (Spec.allSegments polys).any (Spec.onSeg pt) = true
+  · simp [ha, ofVerdict]
+  · simp only [ha, if_false]
+    unfold parity ofBool
+    by_cases hc : (Spec.allSegments polys).countP (Spec.crossHO pt) % 2 = 1
+    · simp [hc, ofVerdict]
+    · simp [hc, ofVerdict]
+
+/-- [OnEdge clause + even-odd clause] `Point.Within(P)` is `OnEdge` exactly when the point lies on a
+boundary segment of a ring (≥ 3 vertices) of a polygon of `P`, and otherwise `Inside` exactly when
+the half-open crossing count over all rings of all member polygons is odd — for every rational
+point and every polygonal geometry, with no validity hypothesis; and it never panics. -/
+theorem C02_point (pt : P) (pg : Polygonal) :
+    pointInPolygonal pt pg = .ok (ofVerdict (Spec.withinSpec pt pg.polygons)) := by
+  unfold pointInPolygonal
+  have := polysLoop_spec pt pg.polygons false
+  rw [polysVerdict_eq] at this
+  simpa [ofBool] using this
+
+/-- `pgBounds[i]` is always in range: `Point.Within` does not panic. -/
+theorem C02_point_no_panic (pt : P) (pg : Polygonal) (e : Fault) : pointInPolygonal pt pg ≠ .error e := by
+  rw [C02_point]; intro h; cases h
+
+/-- [receivers clause] `MultiPoint.Within` / `LineString.Within` report `Outside` exactly when at least
+one vertex is `Outside` (and `Inside` otherwise). -/
+theorem C02_receivers_points (ps : List P) (pg : Polygonal) :
+    pointsWithin ps pg = .ok (ofVerdict (Spec.verticesSpec ps pg.polygons)) := by
+  induction ps with
+  | nil => simp [pointsWithin, Spec.verticesSpec, ofVerdict]
+  | cons p rest ih =>
+    unfold pointsWithin
+    rw [C02_point]
+    simp only [ofVerdict_outside]
+    by_cases h : Spec.withinSpec p pg.polygons = .outside
+    · simp [h, Spec.verticesSpec, ofVerdict]
+    · rw [if_neg h, ih]
+      simp [Spec.verticesSpec, h]
+
+theorem verticesSpec_append (a b : List P) (polys : List Poly) :
+    Spec.verticesSpec (a ++ b) polys =
+      if Spec.verticesSpec a polys = .outside then .outside else Spec.verticesSpec b polys := by
+  unfold Spec.verticesSpec
+  rw [List.any_append]
+  by_cases h : a.any (fun v => decide (Spec.withinSpec v polys = .outside)) = true
+  · simp [h]
+  · have h' : a.any (fun v => decide (Spec.withinSpec v polys = .outside)) = false := by simpa using h
+    simp [h']
+
+/-- [receivers clause] `MultiLineString.Within` reports `Outside` exactly when at least one vertex of
+one of its lines is `Outside`. -/
+theorem C02_receivers_multiline (ls : List (List P)) (pg : Polygonal) :
+    multiLineWithin ls pg = .ok (ofVerdict (Spec.verticesSpec ls.flatten pg.polygons)) := by
+  induction ls with
+  | nil => simp [multiLineWithin, Spec.verticesSpec, ofVerdict]
+  | cons l rest ih =>
+    unfold multiLineWithin
+    rw [C02_receivers_points]
+    simp only [ofVerdict_outside, List.flatten_cons, verticesSpec_append]
+    by_cases h : Spec.verticesSpec l pg.polygons = .outside
+    · simp [h, ofVerdict]
+    · rw [if_neg h, if_neg h, ih]
+
+/-- [receivers clause] `Polygon.Within` reports `Outside` exactly when at least one of its vertices is
+`Outside`; otherwise `OnEdge` for a deep-equal argument and `Inside` for any other. -/
+theorem C02_receivers_polygon (p : Poly) (pg : Polygonal) :
+    polygonWithin p pg = .ok (
+      if Spec.verticesSpec p.flatten pg.polygons = .outside then .outside
+      else if pg = .polygon p then .onEdge else .inside) := by
+  unfold polygonWithin
+  rw [C02_receivers_multiline]
+  simp only [ofVerdict_outside]
+  by_cases h : Spec.verticesSpec p.flatten pg.polygons = .outside
+  · simp [h]
+  · simp only [h, if_false]
+    by_cases h2 : pg = .polygon p
+    · simp [h2]
+    · simp [h2]
+
+/-! ### non-vacuity and the quirks the theorems talk about, on concrete values -/
+
+/-- the NaN quirk is real: the start point of a non-vertical segment is not detected by `pointOnSegment`… -/
+example : pointOnSegment ⟨0, 0⟩ ⟨0, 0⟩ ⟨1, 1⟩ = false := by decide +kernel
+/-- …but the same vertex is found through the segment that ends there, so the ring reports `OnEdge`. -/
+example : pointInPolygonal ⟨0, 0⟩ (.polygon [[⟨0, 0⟩, ⟨1, 1⟩, ⟨0, 1⟩]]) = .ok .onEdge := by decide +kernel
+/-- interior, exterior, closing segment of an unclosed ring, hole, bow-tie centre -/
+example : pointInPolygonal ⟨1/2, 3/4⟩ (.polygon [[⟨0, 0⟩, ⟨1, 1⟩, ⟨0, 1⟩]]) = .ok .inside := by decide +kernel
+example : pointInPolygonal ⟨0, 1/2⟩ (.polygon [[⟨0, 0⟩, ⟨1, 1⟩, ⟨0, 1⟩]]) = .ok .onEdge := by decide +kernel
+example : pointInPolygonal ⟨1, 1⟩ (.polygon [[⟨0, 0⟩, ⟨4, 0⟩, ⟨4, 4⟩, ⟨0, 4⟩], [⟨1/2, 1/2⟩, ⟨2, 1/2⟩, ⟨2, 2⟩, ⟨1/2, 2⟩]])
+    = .ok .outside := by decide +kernel
+example : pointInPolygonal ⟨1, 1⟩ (.polygon [[⟨0, 0⟩, ⟨2, 2⟩, ⟨2, 0⟩, ⟨0, 2⟩]]) = .ok .onEdge := by decide +kernel
+/-- hypothesis of `C02_bbox_prefilter_sound` is satisfiable -/
+example : (newBounds.extendPoints [⟨0, 0⟩, ⟨1, 1⟩, ⟨0, 1⟩]).overlaps (newBoundsPoint ⟨-1, 1/2⟩) = false := by
+  decide +kernel
+/-- hypothesis of `C02_rayIntersects_eq_crossHO` is satisfiable, with a crossing -/
+example : Spec.onSeg ⟨0, 1/2⟩ (⟨1, 0⟩, ⟨1, 1⟩) = false ∧ Spec.crossHO ⟨0, 1/2⟩ (⟨1, 0⟩, ⟨1, 1⟩) = true := by
+  decide +kernel
+
 end GeomV.C02
